@@ -265,4 +265,35 @@ example :
     (run { max := 2, maxWait := some 50 } ops).running = [1, 2] ∧
     (run { max := 2, maxWait := some 50 } ops).queue = [3] := by decide
 
+
+/-! ## capacity 0 — `max_concurrent_calls(0)`, a bulkhead used as a kill switch
+
+The boundary value of the capacity knob. The step function has no special case for it: the pool starts empty and no
+release ever fills it, so nobody is ever inside the inner service — whatever `max_wait` is (none / zero / finite), for
+every history. (When and how the callers are turned away is C07's business: `TR.Props.C07.zero_capacity_*`.) -/
+
+/-- With capacity 0 the pool is empty, nobody has been handed a permit and nobody is inside, in every reachable state. -/
+theorem zero_capacity_state (cfg : Cfg) (ops : List Op) (h0 : cfg.max = 0) :
+    (run cfg ops).free = 0 ∧ (run cfg ops).assigned = [] ∧ (run cfg ops).running = [] := by
+  have h := permits_conserved cfg ops
+  rw [h0] at h
+  exact ⟨by omega, List.eq_nil_of_length_eq_zero (by omega), List.eq_nil_of_length_eq_zero (by omega)⟩
+
+/-- … and in the observables: no reachable log of a capacity-0 bulkhead contains an `inner_call` at all. -/
+theorem zero_capacity_no_inner_call (cfg : Cfg) (ops : List Op) (h0 : cfg.max = 0) (c k : Nat) :
+    Ev.innerCall c k ∉ (run cfg ops).log := by
+  intro h
+  obtain ⟨pre, post, _, _, hcase⟩ := inner_call_origin cfg ops c k h
+  obtain ⟨hf, ha, _⟩ := zero_capacity_state cfg pre h0
+  rcases hcase with ⟨_, hfree⟩ | ⟨_, hass⟩
+  · omega
+  · rw [ha] at hass; simp at hass
+
+/-- Non-vacuity: capacity 0, `max_wait` 50 ms, none, 0 — three callers, nobody ever inside, no `inner_call`. -/
+example :
+    (run { max := 0, maxWait := some 50 } [.arrive 1 ⟨0, .ok⟩, .poll 1, .adv 50, .poll 1]).log = [.result 1 .timeout] ∧
+    (run { max := 0, maxWait := none } [.arrive 1 ⟨0, .ok⟩, .poll 1, .adv 1000000, .poll 1]).log = [] ∧
+    (run { max := 0, maxWait := some 0 } [.arrive 1 ⟨0, .ok⟩, .poll 1]).log = [.result 1 .timeout] := by
+  decide
+
 end TR.Props.C01
